@@ -28,7 +28,12 @@ def run(ctx):
         ctx.exhaustive = True
     curves = ['bn254', CURVES[1 + ctx.seed % 6]] if quick else CURVES
     for curve in curves:
-        res = ctx.harness(['c09replay', '--curve', curve, '--par', '16'], sel, timeout=7200)
+        res = ctx.harness(['c09replay', '--curve', curve, '--par', '16'], sel, timeout=7200, crash_ok=True)
+        if ctx.last_crash:
+            # a decoded artifact crashed the process inside gnark code (e.g. the solver goroutines of a decoded system)
+            ctx.report('a pipeline over decoded artifacts crashed the process: %s' % re.sub(r'\d+', 'N', ctx.last_crash)[:160],
+                       {'curve': curve, 'crash': ctx.last_crash})
+            continue
         if len(res) != len(sel):
             raise vlib.Infra('short C09 replay')
         byid = {b['id']: b for b in sel}
